@@ -2,7 +2,7 @@
 From Coq Require Import QArith.
 From Boreal Require Import Base.Prelude Spec.MathSpec Spec.Digest Spec.Strtol Spec.RangeSpec
   Model.ModFuncs Model.HashMod Model.MathMod Model.StringMod Model.ModFuncsCase
-  Proofs.ModFuncsProofs Proofs.ModFuncsFrag.
+  Proofs.ModFuncsProofs Proofs.ModFuncsFrag Proofs.ModFuncsToInt Proofs.ModFuncsMath.
 
 (* ---- arguments: with i64 arguments the checked additions of get_args / offset_length_to_start_end never fail *)
 Theorem C16_args_no_overflow : forall o n,
@@ -60,6 +60,66 @@ Proof. exact cache_consistent. Qed.
 Theorem C16_checksum32 : forall l, from_bytes checksum_d l = RInt (Z.of_N (checksum32_ref l)).
 Proof. exact checksum32_correct. Qed.
 
+(* ---- string.to_int = strtoll with full consumption, for every byte string and every base argument *)
+Theorem C16_to_int : forall s b,
+  to_int_call [AStr s] = of_opt_z (strtoll_full s 0) /\ to_int_call [AStr s; AInt b] = of_opt_z (strtoll_full s b).
+Proof. exact (fun s b => conj (to_int_spec1 s) (to_int_spec2 s b)). Qed.
+
+Theorem C16_to_int_pinned_refuted :
+  to_int_pinned [AStr [48;120;49;48]; AInt 16] <> of_opt_z (strtoll_full [48;120;49;48] 16)
+  /\ to_int_pinned [AStr [11;49;50]] <> of_opt_z (strtoll_full [11;49;50] 0).
+Proof. exact to_int_pinned_refuted. Qed.
+
+(* ---- streaming: any slicing of the bytes gives the digest state of the whole *)
+Theorem C16_stream : forall slices,
+  fold_left (md_update mean_d) slices (md_init mean_d) = md_update mean_d (md_init mean_d) (concat slices)
+  /\ fold_left (md_update scc_d) slices (md_init scc_d) = md_update scc_d (md_init scc_d) (concat slices)
+  /\ fold_left (md_update mc_d) slices (md_init mc_d) = md_update mc_d (md_init mc_d) (concat slices).
+Proof. exact stream_all. Qed.
+
+Theorem C16_stream_distribution : forall st a b, dist_update (dist_update st a) b = dist_update st (a ++ b).
+Proof. exact dist_streaming. Qed.
+
+Theorem C16_stream_mc_pinned_refuted : exists slices,
+  md_finalize mc_pinned_d (fold_left (md_update mc_pinned_d) slices (md_init mc_pinned_d))
+  <> md_finalize mc_pinned_d (md_update mc_pinned_d (md_init mc_pinned_d) (concat slices)).
+Proof. exact stream_mc_pinned_refuted. Qed.
+
+(* ---- integer cores *)
+Theorem C16_math_histogram : forall s, Forall (fun b => b < 256) s ->
+  counters (distribution_from_bytes s) = histogram s /\ nb_values (distribution_from_bytes s) = nlen s
+  /\ compute_entropy (distribution_from_bytes s) = RFloat (entropy_spec s).
+Proof. exact (fun s H => conj (counters_histogram s H) (conj (nb_values_bytes s) (entropy_bytes s H))). Qed.
+
+Theorem C16_math_count_percentage : forall mem b, Forall (fun x => x < 256) mem ->
+  count_call (Direct mem) [AInt b] = spec_call (Direct mem) MCount [AInt b]
+  /\ percentage_call (Direct mem) [AInt b] = spec_call (Direct mem) MPercentage [AInt b].
+Proof. exact (fun mem b H => conj (count_whole mem b H) (percentage_whole mem b H)). Qed.
+
+Theorem C16_math_mean : forall s, sum_list s <= umax -> nlen s <= umax ->
+  compute_from_bytes mean_d s = of_opt_f (mean_spec s).
+Proof. exact mean_bytes. Qed.
+
+Theorem C16_math_monte_carlo : forall s, compute_from_bytes mc_d s = of_opt_f (monte_spec s).
+Proof. exact monte_bytes. Qed.
+
+Theorem C16_math_min_max : forall a b,
+  (-9223372036854775808 <= a <= 9223372036854775807)%Z -> (-9223372036854775808 <= b <= 9223372036854775807)%Z ->
+  min_call [AInt a; AInt b] = RInt (min_spec a b) /\ max_call [AInt a; AInt b] = RInt (max_spec a b).
+Proof. exact min_max_spec. Qed.
+
+Theorem C16_math_small : forall m,
+  (forall v, abs_call [AInt v] = spec_call m MAbs [AInt v])
+  /\ (forall b, to_number_call [ABool b] = spec_call m MToNumber [ABool b])
+  /\ (forall s, length_call [AStr s] = spec_call m SLength [AStr s]).
+Proof. exact small_ints_spec. Qed.
+
+Theorem C16_math_to_string : forall m v,
+  (-9223372036854775808 <= v <= 9223372036854775807)%Z ->
+  to_string_call [AInt v] = spec_call m MToString [AInt v]
+  /\ forall b, to_string_call [AInt v; AInt b] = spec_call m MToString [AInt v; AInt b].
+Proof. exact to_string_spec_eq. Qed.
+
 (* ---- non-vacuity *)
 Example C16_range_example :
   hash_call checksum_d (Direct [1;2;3;4;5]) [AInt 3; AInt 100] = RInt 9.
@@ -78,6 +138,16 @@ Example C16_cache_example :
   = map (hash_call md5_d (Direct [97;98;99])) [[AInt 0; AInt 3]; [AInt 0; AInt 2]; [AInt 0; AInt 3]].
 Proof. vm_compute. reflexivity. Qed.
 
+Example C16_to_int_example :
+  to_int_call [AStr [32;11;45;48;120;49;48]] = RInt (-16) /\ to_int_call [AStr [48;120;49;48]; AInt 16] = RInt 16.
+Proof. vm_compute. split; reflexivity. Qed.
+
+Example C16_stream_example :   (* 24 bytes cut 5 + 19: the witness of 9.13, now equal *)
+  md_finalize mc_d (fold_left (md_update mc_d)
+     [[0;0;0;0;0]; [0;255;255;255;255;255;255;0;0;0;0;0;0;255;255;255;255;255;255]] (md_init mc_d))
+  = Some (FMonte 2 4).
+Proof. vm_compute. reflexivity. Qed.
+
 Print Assumptions C16_args_no_overflow.
 Print Assumptions C16_hash_range.
 Print Assumptions C16_hash_literal_same.
@@ -88,3 +158,15 @@ Print Assumptions C16_fragmented_adjacent.
 Print Assumptions C16_digests_streaming.
 Print Assumptions C16_cache_consistent.
 Print Assumptions C16_checksum32.
+Print Assumptions C16_to_int.
+Print Assumptions C16_to_int_pinned_refuted.
+Print Assumptions C16_stream.
+Print Assumptions C16_stream_distribution.
+Print Assumptions C16_stream_mc_pinned_refuted.
+Print Assumptions C16_math_histogram.
+Print Assumptions C16_math_count_percentage.
+Print Assumptions C16_math_mean.
+Print Assumptions C16_math_monte_carlo.
+Print Assumptions C16_math_min_max.
+Print Assumptions C16_math_small.
+Print Assumptions C16_math_to_string.
